@@ -510,7 +510,7 @@ def c08(c):
         for t in range(ntu):
             nm = "c08_%s_%d" % (cfg, t)
             forms = [(k, '#include "s%d.hpp"' % k) for k in range(t, nstruct, ntu)]
-            units.append(dict(name=nm, kind="forms", build="asan0", defs=EXC + ["CFG=vsbx_" + cfg], flags=["-I" + os.path.join(c.bdir, "gen")], preamble=pre, forms=forms,
+            units.append(dict(name=nm, kind="forms", must_compile=True, build="asan0", defs=EXC + ["CFG=vsbx_" + cfg], flags=["-I" + os.path.join(c.bdir, "gen")], preamble=pre, forms=forms,
                               aliases={k: ["/s%d.hpp:" % k, "S%d," % k, "S%d]" % k, "S%d>" % k, "S%d;" % k] for k, _ in forms}))
             runs.append(dict(unit=nm, label=nm))
     return dict(units=units, runs=runs, pre=[gen], evidence=dict(
